@@ -74,7 +74,7 @@ pub enum Expr {
     Call(usize, usize, Vec<Expr>),
     MkStruct(usize, usize, Vec<Expr>),
     MkEnum(usize, usize, usize, Vec<Expr>),
-    Match(Box<Expr>, (usize, usize), Vec<Expr>), // one arm per variant; binders v0..vk
+    Match(Box<Expr>, (usize, usize), Vec<Expr>, u32), // one arm per variant; binders v<tag>_<k>
     If(Box<Expr>, Box<Expr>, Box<Expr>, Box<Expr>), // if a < b { c } else { d }
     TraitCall((usize, usize), usize, Box<Expr>, bool), // trait, method idx, receiver, method-syntax?
     Inherent(usize, usize, Box<Expr>),               // pkg, inherent idx, receiver
@@ -234,12 +234,12 @@ fn gen_expr(p: &mut Prng, sc: &Scope, cur: &Pkg, want: &Ty, depth: u32) -> Expr 
                             for (_, n) in ed.variants.iter() {
                                 let mut vars = sc.vars.clone();
                                 for k in 0..*n {
-                                    vars.push((format!("v{k}"), Ty::Int));
+                                    vars.push((format!("v{depth}_{k}"), Ty::Int));
                                 }
                                 let sc2 = Scope { proj: sc.proj, pkg: sc.pkg, local_fns: sc.local_fns, vars };
                                 arms.push(gen_expr(p, &sc2, cur, &Ty::Int, depth - 1));
                             }
-                            return Expr::Match(Box::new(scrut), (ep, ei), arms);
+                            return Expr::Match(Box::new(scrut), (ep, ei), arms, depth);
                         }
                     }
                     6 => {
@@ -746,7 +746,7 @@ impl Project {
                     format!("{}::{}({})", name, ed.variants[*v].0, a.join(", "))
                 }
             }
-            Expr::Match(s, (p, e), arms) => {
+            Expr::Match(s, (p, e), arms, tag) => {
                 let ed = &self.pkgs[*p].enums[*e];
                 let name = self.q(from, *p, &ed.name);
                 let mut out = format!("(match {} {{ ", self.expr_str(from, s));
@@ -754,7 +754,7 @@ impl Project {
                     if *n == 0 {
                         out.push_str(&format!("{}::{} => {}, ", name, vn, self.expr_str(from, body)));
                     } else {
-                        let bs: Vec<String> = (0..*n).map(|k| format!("v{k}")).collect();
+                        let bs: Vec<String> = (0..*n).map(|k| format!("v{tag}_{k}")).collect();
                         out.push_str(&format!(
                             "{}::{}({}) => {}, ",
                             name,
@@ -824,8 +824,11 @@ impl Project {
         s
     }
 
-    /// Render one package to its items (in declaration order), each a text chunk.
-    fn pkg_items(&self, pi: usize) -> Vec<String> {
+    /// Render one package to its items (in declaration order), each a text chunk; the first
+    /// returned number is how many leading items are type-level definitions (structs, enums,
+    /// traits). goml processes files in path order and needs a trait/type to be declared in an
+    /// earlier-or-same file than its impls, so those all go into the first file.
+    fn pkg_items(&self, pi: usize) -> (usize, Vec<String>) {
         let pk = &self.pkgs[pi];
         let mut items = Vec::new();
         for s in &pk.structs {
@@ -855,6 +858,7 @@ impl Project {
                 .collect();
             items.push(format!("trait {} {{\n{}}}\n", t.name, ms.join("")));
         }
+        let ndefs = items.len();
         for im in &pk.impls {
             let td = &self.pkgs[im.tr.0].traits[im.tr.1];
             let sname = self.q(pi, im.st.0, &self.pkgs[im.st.0].structs[im.st.1].name);
@@ -883,7 +887,7 @@ impl Project {
         for f in &pk.fns {
             items.push(self.fn_str(pi, f));
         }
-        items
+        (ndefs, items)
     }
 
     fn main_fn(&self) -> String {
@@ -901,7 +905,7 @@ impl Project {
     /// File names of package pi relative to the project root.
     pub fn pkg_files(&self, pi: usize) -> Vec<String> {
         let pk = &self.pkgs[pi];
-        let names = ["lib.gom", "b.gom", "c.gom", "d.gom"];
+        let names = ["a_lib.gom", "b.gom", "c.gom", "d.gom"];
         (0..pk.nfiles.max(1))
             .map(|k| {
                 if pi == 0 {
@@ -928,9 +932,11 @@ impl Project {
             })
             .collect();
         let n = texts.len();
-        for (k, item) in self.pkg_items(pi).into_iter().enumerate() {
-            texts[k % n].push_str(&item);
-            texts[k % n].push('\n');
+        let (ndefs, items) = self.pkg_items(pi);
+        for (k, item) in items.into_iter().enumerate() {
+            let slot = if k < ndefs { 0 } else { k % n };
+            texts[slot].push_str(&item);
+            texts[slot].push('\n');
         }
         if pi == 0 {
             texts[0].push_str(&self.main_fn());
@@ -1078,11 +1084,11 @@ impl Project {
                 }
                 Val::En((*p, *en), *v, vals)
             }
-            Expr::Match(s, _, arms) => {
+            Expr::Match(s, _, arms, tag) => {
                 let Val::En(_, v, payload) = self.eval(s, env, fuel)? else { return None };
                 let mut env2 = env.clone();
                 for (k, pv) in payload.into_iter().enumerate() {
-                    env2.insert(format!("v{k}"), pv);
+                    env2.insert(format!("v{tag}_{k}"), pv);
                 }
                 self.eval(arms.get(v)?, &env2, fuel)?
             }
@@ -1168,7 +1174,7 @@ fn expr_uses_tostring(proj: &Project, e: &Expr, depth: u32) -> bool {
         Expr::IntToStr(a) | Expr::Field(a, _, _) => rec(a),
         Expr::Call(p, f, args) => args.iter().any(rec) || rec(&proj.pkgs[*p].fns[*f].body),
         Expr::MkStruct(_, _, xs) | Expr::MkEnum(_, _, _, xs) => xs.iter().any(rec),
-        Expr::Match(s, _, arms) => rec(s) || arms.iter().any(rec),
+        Expr::Match(s, _, arms, _) => rec(s) || arms.iter().any(rec),
         Expr::If(a, b, c, d) => rec(a) || rec(b) || rec(c) || rec(d),
         Expr::TraitCall(tr, mi, r, _) => {
             rec(r)
@@ -1258,7 +1264,7 @@ fn map_expr(e: &mut Expr, f: &mut dyn FnMut(&mut Expr)) {
                 map_expr(x, f);
             }
         }
-        Expr::Match(s, _, arms) => {
+        Expr::Match(s, _, arms, _) => {
             map_expr(s, f);
             for x in arms.iter_mut() {
                 map_expr(x, f);
@@ -1419,7 +1425,7 @@ impl Project {
             Edit::AddVariant { p, e } => {
                 self.pkgs[p].enums[e].variants.push((format!("V{uniq}"), 0));
                 self.for_all_exprs(&mut |x| {
-                    if let Expr::Match(_, (ep, ei), arms) = x {
+                    if let Expr::Match(_, (ep, ei), arms, _) = x {
                         if *ep == p && *ei == e {
                             arms.push(Expr::Lit(uniq as i32));
                         }
